@@ -108,6 +108,18 @@ Lemma exec_assert : forall c cnd r,
   end.
 Proof. reflexivity. Qed.
 
+Lemma exec_assert_msg : forall c cnd msg r,
+  exec c (SAssertMsg cnd msg) r =
+  match eval c r cnd with
+  | Raise ex => Raised ex
+  | Ok v =>
+      if testable v then
+        (if truthy v then Next r
+         else match eval c r msg with Ok _ => Raised AssertionError | Raise ex => Raised ex end)
+      else Raised OtherError
+  end.
+Proof. reflexivity. Qed.
+
 Lemma exec_try1 : forall c b ex handler orelse r,
   exec c (STry [b] ex handler orelse) r =
   match exec c b r with
@@ -269,6 +281,7 @@ Ltac py_unfold1 :=
       | SPass => rewrite (exec_pass c r)
       | SExpr ?e => py_unfold_expr c e r
       | SAssert ?cnd => rewrite (exec_assert c cnd r)
+      | SAssertMsg ?cnd ?m => rewrite (exec_assert_msg c cnd m r)
       | STry [?b] ?ex ?h ?o => rewrite (exec_try1 c b ex h o r)
       | SFor ?t ?it ?body => rewrite (exec_for c t it body r)
       | SBreak => rewrite (exec_break c r)
@@ -283,7 +296,34 @@ Ltac py_unfold1 :=
       | SPass => rewrite (exec_pass c r)
       | SIf ?cnd ?th ?el => rewrite (exec_if c cnd th el r)
       | SAssert ?cnd => rewrite (exec_assert c cnd r)
+      | SAssertMsg ?cnd ?m => rewrite (exec_assert_msg c cnd m r)
       | SAugAssign ?x ?op ?e => rewrite (exec_augassign c x op e r)
       | STry [?b] ?ex ?h ?o => rewrite (exec_try1 c b ex h o r)
       end
   end.
+
+(* [for_loop_model] for items that are known to satisfy a predicate (what the iterable
+   guarantees about its elements, e.g. how the three lists of a zip are related): the round
+   is only run on such items *)
+Theorem for_loop_model_on : forall {St X} (c : ctx) (t : target) (body : list stmt)
+    (emb : X -> val) (step : St -> X -> lres St) (R : St -> env -> Prop) (P : X -> Prop),
+  (forall st x r, P x -> R st r ->
+     match bind_target t (emb x) r with
+     | None => False
+     | Some r1 => round_post R (step st x) (exec_block c body r1)
+     end) ->
+  forall xs, Forall P xs -> forall st r, R st r ->
+    loop_post R (loop_model step st xs) (for_loop c t body (map (fun x => Ok (emb x)) xs) r).
+Proof.
+  intros St X c t body emb step R P Hbody xs HP.
+  induction HP as [|x xs Hx HP IH]; intros st r HR.
+  - cbn [map for_loop loop_model loop_post]. exists st. split; [reflexivity | exact HR].
+  - cbn [map for_loop loop_model]. specialize (Hbody st x r Hx HR).
+    destruct (bind_target t (emb x) r) as [r1|]; [|contradiction].
+    destruct (exec_block c body r1) as [r2|v|e|r2|r2]; cbn [round_post] in Hbody.
+    + destruct Hbody as [s [Hs HR2]]. rewrite Hs. apply IH, HR2.
+    + contradiction.
+    + rewrite Hbody. reflexivity.
+    + destruct Hbody as [s [Hs HR2]]. rewrite Hs. cbn [loop_post]. exists s. split; [reflexivity | exact HR2].
+    + destruct Hbody as [s [Hs HR2]]. rewrite Hs. apply IH, HR2.
+Qed.
